@@ -540,6 +540,9 @@ func (r *Rec) writeEvidence() {
 		cov["exhaustive"] = *r.exhaustive
 	}
 	sort.Strings(r.assume)
+	if r.assume == nil {
+		r.assume = []string{}
+	}
 	doc := map[string]any{
 		"property_id": r.ID, "tier": r.Tier, "seed": r.Seed, "level": r.Level,
 		"coverage": cov, "assumptions": r.assume, "violations": r.violations,
